@@ -34,6 +34,7 @@ MIN_REACH = {
     "roundtrips": {"quick": 250, "thorough": 4000},
     "lazy_loads": {"quick": 60, "thorough": 1000},
     "merge_twice": {"quick": 50, "thorough": 800},
+    "loads_with_create_new": {"quick": 100, "thorough": 1500},
     "merges_adding_fractional_labels_to_integer_axis": {"quick": 4, "thorough": 60},
     "merges_adding_longer_labels_to_a_string_axis": {"quick": 3, "thorough": 50},
     "merges_widening_a_narrow_stored_axis": {"quick": 6, "thorough": 100},
@@ -174,6 +175,15 @@ def run_case(ctx, case):
             d = judge_equal(orig, back, engine)
             if d:
                 bad.append(("roundtrip", "load_ds(save_ds(ds)) differs: " + d))
+            # the create_new convenience ("make a blank dataset if there is no file yet") must find the same file
+            with quiet():
+                back2 = xyzpy.load_ds(path, engine=engine, create_new=True)
+            ctx.count("loads_with_create_new")
+            d = judge_equal(orig, back2, engine)
+            if d:
+                bad.append(("roundtrip", "load_ds(..., create_new=True) of an existing file differs from what was saved: " + d))
+            if hasattr(back2, "close"):
+                back2.close()
             if engine != "joblib" and case["chunks"] is not None:
                 ch = case["chunks"]
                 if ch == "dict":
